@@ -64,6 +64,14 @@ def c10_scripts(rng, tier, model_prefixes):
             if rng.random() < 0.3:
                 pre.append({"op": "partial", "id": 0, "k": rng.choice([-1, 1, 2])})
             suf = suffix_ops(rng, n, rng.randrange(3, 9))
+            # "any subsequent call sequence": masks that change from call to call, wrappers, partial
+            # calls - whatever the history left in channels that were inactive must not show
+            if n["ch"] > 1 and rng.random() < 0.6:
+                for o in suf:
+                    if o["op"] == "process" and rng.random() < 0.7:
+                        o["mask"] = [rng.random() < 0.5 for _ in range(n["ch"])]
+            if rng.random() < 0.3:
+                suf.append({"op": "partial", "k": rng.choice([-1, 1, 2])})
             ops = list(pre) + [{"op": "note", "twin": "full", "a": 0, "b": 1}, {"op": "reset", "id": 0}, with_id(n, 1)]
             for o in suf:
                 ops += [with_id(o, 0), with_id(o, 1)]
@@ -73,8 +81,14 @@ def c10_scripts(rng, tier, model_prefixes):
         n = dict(ops0[0])
         n["signal"] = "noise"
         n.pop("probe", None)
+        n["ch"] = rng.choice([1, 2, 3])
         pre = [n] + ops0[1:]
+        if n["ch"] > 1:
+            m0 = [rng.random() < 0.6 for _ in range(n["ch"])]
+            pre = [n] + [dict(o, mask=m0) if o["op"] == "process" and rng.random() < 0.5 else o for o in ops0[1:]]
         suf = [{"op": "process"}, {"op": "process"}, {"op": "process"}]
+        if n["ch"] > 1:
+            suf = [dict(o, mask=[rng.random() < 0.5 for _ in range(n["ch"])]) if rng.random() < 0.6 else o for o in suf]
         ops = pre + [{"op": "note", "twin": "full", "a": 0, "b": 1}, {"op": "reset", "id": 0}, with_id(n, 1)]
         for o in suf:
             ops += [with_id(o, 0), with_id(o, 1)]
@@ -269,9 +283,9 @@ def c18_scripts(rng, tier, schedules):
         calls = [o for o in h[1:]]
         K = sum(1 for s in sched if s[0] == 1)
         calls = (calls + [{"op": "process"}] * K)[:K]
-        ops = [with_id(n, 0)] + [with_id(o, 0) for o in calls]
-        for i in range(1, ninst + 1):
-            ops.append({"op": "note", "twin": "full", "a": 0, "b": i})
+        # relations are declared first: a declaration clears what was recorded for its instances
+        ops = [{"op": "note", "twin": "full", "a": 0, "b": i} for i in range(1, ninst + 1)]
+        ops += [with_id(n, 0)] + [with_id(o, 0) for o in calls]
         # constructors: concurrently (planner caches, cpu detection race)
         ops.append({"op": "par_begin"})
         for i in range(1, ninst + 1):
@@ -300,6 +314,42 @@ def c18_scripts(rng, tier, schedules):
                 ops.append({"op": "par_end"})
             k = j
         S.append(ops)
+    # hidden process-wide / per-thread state: a reference run, then an unrelated resampler of another
+    # family is constructed and used on the same thread, then the twin run. Signals fade through the
+    # subnormal range to zero (floating-point environment, denormal handling), both sample types.
+    for _ in range({"quick": 16, "thorough": 200}[tier]):
+        kind = rng.choice(kinds)
+        other = rng.choice([k for k in kinds if k[:3] != kind[:3]] + ["SincFixedIn", "SincFixedOut"])
+        h = gen.valid_history(rng, kind, 1, small=False, allow=())
+        n = calm(h[0])
+        n["signal"] = "fade"
+        n["ch"] = 1
+        n.pop("probe", None)
+        n["T"] = rng.choice([32, 32, 64])
+        if kind in gen.ASYNC:
+            n["chunk"] = rng.choice([64, 100, 256])
+        need = 420 if n["T"] == 32 else 2300
+        per_in = n["chunk"]
+        if kind in ("FastFixedOut", "SincFixedOut"):
+            per_in = max(1, int(n["chunk"] / float(gen.frac_of(n["r"]))))
+        if kind == "FftFixedOut":
+            per_in = max(1, n["chunk"] * n["fs_in"] // n["fs_out"])
+        calls = [{"op": "process"}] * min(400, need // max(1, per_in) + 3)
+        o = gen.new_op(rng, other)
+        o.pop("probe", None)
+        o["signal"] = "noise"
+        o["ch"] = 1
+        ops = [{"op": "note", "twin": "full", "a": 0, "b": 1}]
+        ops += [with_id(n, 0)] + [with_id(c, 0) for c in calls]
+        ops += [with_id(o, 9), {"op": "process", "id": 9}]
+        mig = rng.random() < 0.5
+        ops.append(with_id(n, 1))
+        for c in calls:
+            c2 = with_id(c, 1)
+            if mig:
+                c2["thread"] = rng.randrange(1, 4)
+            ops.append(c2)
+        S.append(ops)
     # free running: many threads x instances, everything concurrent
     for _ in range({"quick": 6, "thorough": 60}[tier]):
         kind = rng.choice(kinds)
@@ -309,9 +359,8 @@ def c18_scripts(rng, tier, schedules):
         n.pop("probe", None)
         calls = h[1:]
         nthr = rng.choice([4, 8, 14])
-        ops = [with_id(n, 0)] + [with_id(o, 0) for o in calls]
-        for i in range(1, nthr + 1):
-            ops.append({"op": "note", "twin": "full", "a": 0, "b": i})
+        ops = [{"op": "note", "twin": "full", "a": 0, "b": i} for i in range(1, nthr + 1)]
+        ops += [with_id(n, 0)] + [with_id(o, 0) for o in calls]
         ops.append({"op": "par_begin"})
         for i in range(1, nthr + 1):
             o = with_id(n, i); o["thread"] = i
@@ -472,12 +521,26 @@ def check(prop, tier, seed, replay=None):
     elif prop == "C18":
         S = c18_scripts(rng, tier, fleet_schedules(tier, wd, rng, cov))
     else:
+        if prop == "C11":
+            # the FFT resamplers share their work buffers between channels: data-flow model
+            ch, bl = ("{1,2,3}", "{1,2,3}") if tier == "quick" else ("{1,2,3,4}", "{1,2,3,4}")
+            cfg = ("SPECIFICATION Spec\nCONSTANTS\n  Chans = %s\n  Blocks = %s\nINVARIANT C11_NoForeignRead\n"
+                   "INVARIANT C11_OutputDeps\nCHECK_DEADLOCK FALSE\n" % (ch, bl))
+            r0 = model.check_model("FftUnit", cfg, wd, "C11-fftunit", workers=4, timeout=1500)
+            if not r0["ok"]:
+                raise run.ToolError("FftUnit fails on its own: " + r0["error"])
+            cov["states"] += r0["distinct"]
+            cov["transitions"] += r0["generated"]
+            cov["model_runs"].append({"module": "FftUnit", "config": "Chans %s Blocks %s" % (ch, bl),
+                                      "distinct": r0["distinct"], "generated": r0["generated"], "ok": True,
+                                      "invariants": ["C11_NoForeignRead", "C11_OutputDeps"]})
         pref = model_prefixes(prop, tier, wd, rng, cov)
         S = {"C10": c10_scripts, "C16": c16_scripts, "C17": c17_scripts, "C11": c11_scripts}[prop](rng, tier, pref)
     cov["scripts"]["total"] = len(S)
     pairs = run.run_scripts(S, wd)
     res = run.validate_traces(pairs, plan["twin"], wd, module="TraceTwin", tag=prop)
     viols = list(res["viols"])
+    run.pair_stats(res, cov, prop)
     cov["states"] += res["states"]
     cov["transitions"] += res["transitions"]
     cov["traces_validated_against_impl"] = res["traces"]
